@@ -784,11 +784,14 @@ class Result(JsonSerializable):
                 r._total_list = d['total_list']
 
         else:
-            r = Result.create(name=d['name'],
-                              update_type=d['update_type_code'],
-                              value=d['value'],
-                              total=d['total'],
-                              accumulate_values=d['accumulate_values_bool'])
+            # Note that `Result.create` is not used here: it performs an
+            # update, which fails (0/0) for a RATIOTYPE result that was
+            # never updated. All the attributes are restored below.
+            r = Result(name=d['name'],
+                       update_type_code=d['update_type_code'],
+                       accumulate_values=d['accumulate_values_bool'])
+            r._value = d['value']
+            r._total = d['total']
             r._value_list = d['value_list']
             r._total_list = d['total_list']
             r.num_updates = d['num_updates']
